@@ -144,6 +144,37 @@ func longJobs(c *Ctx, gg *GenGrammar, entry string, limit int, tail ...int) []*J
 	return jobs
 }
 
+// rawJobs: inputs with invalid UTF-8 (or NUL) at the first or last place, the other runes
+// arbitrary; on the curated shapes and every sixth other grammar.
+func rawJobs(c *Ctx, entry string, tail ...int) func(gg *GenGrammar) []*Job {
+	return func(gg *GenGrammar) []*Job {
+		if !(strings.HasPrefix(gg.G.Tag, "shape/") || gg.Idx%6 == 0) {
+			return nil
+		}
+		kinds := []int{0, 2, 5}
+		runes := []int{1, 2, 1}
+		ns := []int{2, 4}
+		if !c.Quick() {
+			kinds, runes, ns = []int{0, 1, 2, 3, 4, 5}, []int{1, 1, 2, 3, 4, 1}, []int{1, 2, 3, 4, 5}
+		}
+		var jobs []*Job
+		for _, n := range ns {
+			for i, k := range kinds {
+				if runes[i] > n {
+					continue
+				}
+				for _, pos := range []int{0, n - runes[i]} {
+					jobs = append(jobs, &Job{Entry: entry + "R", Args: append([]int{pos, k, n}, tail...)})
+					if n-runes[i] == 0 {
+						break
+					}
+				}
+			}
+		}
+		return jobs
+	}
+}
+
 func stdLong(c *Ctx, entry string, limit int, tail ...int) func(gg *GenGrammar) []*Job {
 	return func(gg *GenGrammar) []*Job { return longJobs(c, gg, entry, limit, tail...) }
 }
@@ -160,6 +191,7 @@ func stdBounds(c *Ctx, n int) {
 	c.Bounds["input_length_note"] = "one rune more (N+1) on the curated shapes and the end-of-input lookahead layer (both tiers) and, in the thorough tier, on grammars with <= 3 terminal classes"
 	c.Bounds["input_length"] = fmt.Sprintf("all lengths 0..%d runes; each rune any Unicode scalar value (0..0x10FFFF minus surrogates), i.e. every Go string whose decoding has that many runes", n)
 	c.Bounds["long_inputs"] = "long-input layer (11 loop/recursion grammars, one of them with 260 rules): lengths 17, 255, 256, 260 (quick) and 17..1000, and 65535/65536 for grammars with a constant number of tokens (thorough); all runes a concrete filler cycle except two arbitrary runes at the ends / last two / middle positions"
+	c.Bounds["raw_inputs"] = "C03/C13 only: Buffer strings that contain invalid UTF-8 (lone 0xFF, truncated sequences, an encoded surrogate, a sequence above U+10FFFF) or NUL at the first or last place, the other runes arbitrary (lengths 2 and 4 quick; 1..5 thorough); on the curated shapes and every sixth other grammar"
 	c.Bounds["outside"] = "longer inputs; grammars outside the enumerated family; semantic predicates with side effects"
 	c.Assumptions = append(c.Assumptions, stdAssumptions...)
 }
@@ -211,6 +243,7 @@ func init() {
 			},
 			Jobs:              func(gg *GenGrammar) []*Job { return lenJobs("C03", nFor(c, gg, N), 0) },
 			LongJobs:          stdLong(c, "C03", 0, 0),
+			RawJobs:           rawJobs(c, "C03", 0),
 			BrokenIsViolation: true, ValidateEveryGrammar: validateEvery(c), Cfg: parserCfg(c),
 		}
 	}
@@ -377,6 +410,7 @@ func init() {
 			},
 			Jobs:              func(gg *GenGrammar) []*Job { return lenJobs("C13", nFor(c, gg, N)) },
 			LongJobs:          stdLong(c, "C13", 0),
+			RawJobs:           rawJobs(c, "C13"),
 			BrokenIsViolation: false, ValidateEveryGrammar: validateEvery(c), Cfg: parserCfg(c),
 		}
 	}
